@@ -26,8 +26,9 @@ def correspond(chk, layer, lines, modes=("c", "py"), model_args=(), impl_args=()
         try:
             out = core.run_impl(layer, lines, m, impl_args, env_extra)
         except core.ImplBroken as e:
+            bad_script = isolate_crash(layer, lines, m, impl_args, env_extra)
             divs.append(dict(mode=m, index=-1, line="", impl="<implementation could not be run: %s>" % str(e)[-1500:],
-                             model="", script=[], label=label))
+                             model="", script=bad_script or [], label=label, crash=bool(bad_script)))
             impl[m] = None
             continue
         impl[m] = out
@@ -42,6 +43,34 @@ def correspond(chk, layer, lines, modes=("c", "py"), model_args=(), impl_args=()
         chk.count("lines_%s" % m, len(lines))
     chk.count("lines_model", len(lines))
     return impl, model, divs
+
+
+def isolate_crash(layer, lines, mode, impl_args=(), env_extra=None, per_run_timeout=20):
+    """the implementation crashed or did not terminate on the batch: find one reset-delimited script on which it still
+    does (binary search over scripts). Returns the script's lines or None (e.g. import failure: nothing to isolate)."""
+    scripts = [[lines[i] for i in idxs] for idxs in core.split_scripts(lines)]
+
+    def broken(ss):
+        try:
+            core.run_impl(layer, [l for s in ss for l in s], mode, impl_args, env_extra, timeout=per_run_timeout)
+            return False
+        except core.ImplBroken:
+            return True
+
+    if not scripts or not broken(scripts[:1]) and len(scripts) == 1:
+        return None
+    if broken([["reset"]]) and broken(scripts[:1]) and len(scripts) > 1 and broken(scripts[1:2]):
+        return None          # everything fails: not input-specific
+    lo, hi = 0, len(scripts)
+    runs = 0
+    while hi - lo > 1 and runs < 14:
+        mid = (lo + hi) // 2
+        runs += 1
+        if broken(scripts[lo:mid]):
+            hi = mid
+        else:
+            lo = mid
+    return scripts[lo] if broken(scripts[lo:lo + 1]) else None
 
 
 def ddmin(lines, fails, keep_first=1, budget=40):
@@ -74,6 +103,11 @@ def report_divergences(chk, divs, theorem_hint, searched):
     if not divs:
         return
     d = divs[0]
+    if d.get("crash"):
+        chk.violation("the implementation crashes or no longer terminates on this history (mode=%s): %s" % (d["mode"], d["impl"][:400]),
+                      dict(kind="history", mode=d["mode"], script=d["script"], observed="<no answer>", expected_by="model",
+                           theorem_or_correspondence=theorem_hint), failing_input=True)
+        return
     chk.violation(
         "correspondence model<->implementation diverges (%d places; first: mode=%s line=%r impl=%r model=%r); %s"
         % (len(divs), d["mode"], d["line"], d["impl"], d["model"], searched),
